@@ -32,6 +32,7 @@ EXPLANATION = ('whole-string str.lower() expands U+0130 into two code points, so
 
 def correspond(ctx):
     spancorr.replay_witnesses(ctx, PROP)
-    spancorr.preprocess_unit(ctx, PROP)
+    with spancorr.Phase(ctx, 'preprocess_unit'):
+        spancorr.preprocess_unit(ctx, PROP)
     tasks = spancorr.pipeline(ctx, PROP)
     spancorr.unit_level(ctx, PROP, tasks)
